@@ -5,7 +5,9 @@
               the debounce timer exactly as changeAndNotify handles it (armed / firedPending, Reset in the window,
               orphaned timers), the legacy / subscribed fan-out, the capability gate, resource subscriptions,
               sessions connecting / subscribing / unsubscribing / closing, and the client cache with the fill and the
-              notification handling as two steps each.  Reachability witnesses guard against vacuity.
+              notification handling as two steps each; ONE subscriptions/listen request over several URIs of which the
+              server's SubscribeHandler refuses any subset, one turn of the server's loop per step (Notify_mc_listen*.cfg:
+              no URI of a failed request stays subscribed, SubsOnlyCurrent).  Reachability witnesses guard against vacuity.
   2. leads    configurations in which TLC is EXPECTED to find a counterexample (Notify_lead_*.cfg, run on NotifyGen so
               that the counterexample carries its scenario): the clean-up of a cancelled URI listen stream that deletes a
               newer subscription.  A lead is never a verdict: its scenario is replayed on the real code.
@@ -16,7 +18,10 @@
               is a VIOLATION cache:stale-fill-after-invalidate:<kind> on the real code.  Likewise the listen clean-up that
               dropped a session's list-changed subscriptions (5eb4542; switch ListenOwns, witness Notify_lead_unsub.cfg,
               regression signature NeverLost:modern:uri-unsubscribe-drops-list-changed; Notify_mc_unsub.cfg proves
-              NeverLost with modern URI unsubscribes).
+              NeverLost with modern URI unsubscribes).  Notify_lead_listen.cfg is a sensitivity witness of the same kind for
+              a defect class the SDK never had (FailUndo = FALSE: a listen request that fails at its k-th URI leaves the
+              k-1 URIs it had entered behind): TLC must find UpdatedExactlySubscribers violated, and the scenario is replayed
+              (on correct code the monitor stays silent).
   3. generate spec/NotifyGen.tla (scenario discipline, history of environment actions): every complete behaviour of a
               small timing configuration (1-2 changes, 3 in the thorough tier, against the timer window, sessions
               closing in between) and seeded simulations of three larger configurations.
@@ -36,7 +41,8 @@ KINDS = ("tools", "prompts", "resources", "templates")
 NOTIF_OF = {"tools": "tools", "prompts": "prompts", "resources": "resources", "templates": "resources"}
 WANT_ALL = list(NOTIFS)
 CLOBBER_SIG = "NeverLost:modern:uri-unsubscribe-drops-list-changed"
-WITNESS = {"cache": "LeadFresh", "unsub": "LeadNeverLost"}  # lead families that are repaired in the SDK
+# lead families whose defect the SDK does not have (repaired, or never present): TLC must find them with the switch off
+WITNESS = {"cache": "LeadFresh", "unsub": "LeadNeverLost", "listen": "LeadUpdated"}
 RESUB_SIG = "UpdatedExactlySubscribers:missing:modern:stale-unsubscribe-overtakes-resubscribe"
 
 
@@ -101,13 +107,15 @@ def front(v, tier, seed):
     # 1. design
     mcs = ["Notify_mc_cache.cfg", "Notify_mc_core.cfg", "Notify_mc_shared.cfg", "Notify_mc_ttl.cfg",
            "Notify_mc_timed.cfg", "Notify_mc_off.cfg", "Notify_mc_read.cfg", "Notify_mc_unsub.cfg"]
+    mcs.append("Notify_mc_listen.cfg" if tier == "quick" else "Notify_mc_listen_t.cfg")
     if tier == "thorough":
         mcs = ["Notify_mc_cache_t.cfg", "Notify_mc_core_t.cfg"] + mcs
     for c in mcs:
         add(("mc", c), tlc("NotifyMC", c, workers=2, timeout=1500, heap_gb=6))
     # 1b. vacuity: each witness must be violated
     wits = [("Notify_mc_core.cfg", w) for w in ("NeverWindow", "NeverOrphan", "NeverGot", "NeverStopped")]
-    wits += [("Notify_mc_ttl.cfg", "NeverHit"), ("Notify_mc_timed.cfg", "NeverWindow"), ("Notify_mc_timed.cfg", "NeverOrphan")]
+    wits += [("Notify_mc_ttl.cfg", "NeverHit"), ("Notify_mc_timed.cfg", "NeverWindow"), ("Notify_mc_timed.cfg", "NeverOrphan"),
+             ("Notify_mc_listen.cfg", "NeverPartial")]
     for c, w in wits:
         add(("wit", c, w), tlc("NotifyMC", c, cfg_text(c, INVARIANTS=w), workers=1, timeout=600, heap_gb=2))
     # 2. leads
@@ -115,13 +123,14 @@ def front(v, tier, seed):
     lds.append((("cache", "read"), "Notify_lead_read.cfg", {}))
     lds += [(("unsub", k), "Notify_lead_unsub.cfg", {"Kinds": tla_set([k])}) for k in NOTIFS]
     lds.append((("resub", "u1"), "Notify_lead_resub.cfg", {}))
+    lds.append((("listen", "u1u2"), "Notify_lead_listen.cfg", {}))
     for key, c, sub in lds:
         add(("lead",) + key, tlc("NotifyGen", c, cfg_text(c, **sub), workers=1, timeout=900, heap_gb=3))
     # 3. generation
     wcfg = "Notify_gen_window.cfg" if tier == "quick" else "Notify_gen_window_t.cfg"
     add(("gen", "window"), tlc("NotifyGen", wcfg, workers=2, timeout=1500, heap_gb=6))
     exh = (("cachex_list", "Notify_gen_cachex_list.cfg"), ("cachex_read", "Notify_gen_cachex_read.cfg"),
-           ("subs", "Notify_gen_subs.cfg"))
+           ("subs", "Notify_gen_subs.cfg"), ("listen", "Notify_gen_listen.cfg"))
     for tag, c in exh:
         add(("gen", tag), tlc("NotifyGen", c, workers=1, timeout=1500, heap_gb=4))
     num = {"quick": 100, "thorough": 2500}[tier]
@@ -203,6 +212,15 @@ def front(v, tier, seed):
     return leads, beh
 
 
+def listen_then_update(steps):
+    seen = False
+    for s in steps:
+        seen = seen or s[0] == "listen"
+        if seen and s[0] == "updated":
+            return True
+    return False
+
+
 def steps_of(p):
     return [[s["op"], s["a1"], s["a2"]] for s in p["steps"]]
 
@@ -219,11 +237,12 @@ CONF = {
     "mix": (["L1", "M1", "M2"], ["L1", "M1"], 0, [], ["u1"]),
     "ttl": (["L1", "M1"], ["L1", "M1"], 60000, [], ["u1"]),
     "off": (["L1", "M1", "M2"], ["L1", "M1"], 0, ["tools"], ["u1"]),
+    "listen": (["M1", "M2"], ["M1", "M2"], 0, [], ["u1", "u2"]),
 }
 
 
 INIT_SUB = {"cachex_read": ["M1"]}
-EXHAUSTIVE = ("window", "cachex_list", "cachex_read", "subs")
+EXHAUSTIVE = ("window", "cachex_list", "cachex_read", "subs", "listen")
 # ServerOptions.PageSize: the base features alone fill two pages
 PAGED = {"cachex_list": [2], "ttl": [0, 2], "lead": [0, 2]}
 
@@ -405,9 +424,16 @@ def signature(f, trows, idx):
             elif subs and any(r.get("ev") == "close.begin" and r.get("s") != s and r["seq"] > subs[-1] for r in trows[:idx]):
                 why = ":after-close-of-another-session"
         if x == "extra":
+            u = e.get("u")
             closed = any(r.get("ev") == "close.begin" and r.get("s") == s for r in trows[:idx])
             unsub = any(r.get("ev") == "unsub.begin" and r.get("s") == s for r in trows[:idx])
-            why = ":closed" if closed else (":unsubscribed" if unsub else ":never-subscribed")
+            # the last thing the session did about this URI was a subscriptions/listen request that the server failed
+            # (its SubscribeHandler refused another URI of the same request)
+            last = next((r for r in reversed(trows[:idx]) if r.get("s") == s and
+                         ((r.get("ev") in ("sub.end", "unsub.begin") and r.get("u") == u) or
+                          (r.get("ev") == "listen.end" and u in (r.get("uris") or [])))), None)
+            failed = last is not None and last.get("ev") == "listen.end" and not last.get("ok")
+            why = ":closed" if closed else (":failed-listen" if failed else (":unsubscribed" if unsub else ":never-subscribed"))
         return "UpdatedExactlySubscribers:%s:%s%s" % (x, era, why)
     if clause == "UpdatedDelivered":
         return "UpdatedDelivered:%s" % era
@@ -448,7 +474,10 @@ def run(tier, seed, replay):
         "the server advertises listChanged for every kind (one base feature each) unless the scenario disables the capability; "
         "result TTLs are set by a server receiving middleware (0 or 60 s)",
         "entitlement is what the protocol grants: legacy session = connected; 2026-07-28 session = listen request acknowledged for "
-        "that notification; URI subscription = subscribe acknowledged until unsubscribe/close",
+        "that notification; URI subscription = subscribe acknowledged until unsubscribe/close; a subscriptions/listen request naming "
+        "several URIs subscribes the session to all of them when acknowledged and to none of them when the server fails it",
+        "which URIs the server's SubscribeHandler refuses is chosen per listen request by the scenario; several-URI requests are sent "
+        "through the unexported ClientSession.subscriptionsListen (ClientSession.Subscribe only sends single-URI requests)",
         "the order of a change and the timer callback at the same instant is not controllable without a hook: race steps are "
         "repeated and the orders observed are counted (coverage.race_orders)",
         "TLC exhaustive results are for the bounded constants of spec/Notify_mc_*.cfg",
@@ -472,7 +501,7 @@ def run(tier, seed, replay):
                 sc = concretise("regress.cache.%s" % k, "lead", steps_of(p), rng, ["M1"], ["M1"], 60000, [], uris)
             else:
                 sc = concretise("%s.%s.%s" % ("regress" if fam in WITNESS else "lead", fam, k), "lead", steps_of(p), rng,
-                                ["M1"], ["M1"], 0, [], ["u1"])
+                                ["M1"], ["M1"], 0, [], ["u1", "u2"] if fam == "listen" else ["u1"])
             if clause is not None:
                 lead_of[sc["id"]] = clause
             scen.append(sc)
@@ -499,11 +528,19 @@ def run(tier, seed, replay):
         # steps and a seeded sample of the 4-step ones
         sub4 = sorted(k for k in groups if k[0] == "subs" and len(json.loads(k[1])) > 3 and '"updated"' in k[1])
         keep |= set(rng.sample(sub4, min(len(sub4), 250))) if tier == "quick" else set(sub4)
+        # several-URI listen scripts: only those in which a resource update follows a listen request (it tells who the
+        # server still remembers); all up to 3 steps and a seeded sample of the 4-step ones
+        lis = sorted(k for k in groups if k[0] == "listen" and listen_then_update(json.loads(k[1])))
+        lis4 = [k for k in lis if len(json.loads(k[1])) > 3]
+        keep |= set(k for k in lis if len(json.loads(k[1])) <= 3)
+        keep |= set(rng.sample(lis4, min(len(lis4), {"quick": 300, "thorough": 4000}[tier])))
         for (tag, key), ps in sorted(groups.items()):
             steps = json.loads(key)
             if tag.startswith("cachex") and len(steps) > 5 and (tag, key) not in keep:
                 continue
             if tag == "subs" and ('"updated"' not in key or (len(steps) > 3 and (tag, key) not in keep)):
+                continue
+            if tag == "listen" and (tag, key) not in keep:
                 continue
             sessions, init_on, ttl, cap_off, uris = CONF[tag]
             racy = any(s[0] == "tchange" for s in steps)
